@@ -2,6 +2,7 @@
 # tools/merge_ws.sh <WS>…: merge finished/milestone work-streams (branch wip/<WS>) into /verif main.
 # Generated files (MANIFEST.json, known_findings.json, evidence/*.json) are resolved to "ours" and regenerated.
 cd /verif || exit 1
+git add -A && git commit -q -m "regenerate manifest" 2>/dev/null
 for ws in "$@"; do
   if ! git merge --no-ff -q -m "Merge work-stream $ws" wip/$ws >/dev/null 2>&1; then
     for f in $(git diff --name-only --diff-filter=U); do
@@ -13,6 +14,6 @@ for ws in "$@"; do
     if [ -n "$(git diff --name-only --diff-filter=U)" ]; then echo "merge of $ws needs manual resolution"; exit 1; fi
     git commit -q -m "Merge work-stream $ws"
   fi
-  echo "merged $ws"
+  git merge-base --is-ancestor wip/$ws HEAD && echo "merged $ws" || { echo "NOT MERGED $ws"; exit 1; }
 done
 python3 tools/gen_manifest.py
